@@ -98,7 +98,7 @@ func (c09Prop) Generate(seed uint64, idx int, tier string) *Plan {
 		pl.BlockSize = 1 << 24
 		for g := r.Range(1, 3); g > 0; g-- {
 			if pl.Type == "One" || r.P(1, 2) {
-				k := r.PickInt([]int{63, 64, 65, 127, 128, 129, 255, 256, 8191, 8192, 8193})
+				k := r.PickInt([]int{63, 64, 65, 127, 128, 129, 255, 256, 8191, 8192, 8193, 16383, 16384, 32767, 32768, 65535, 65536, 65537})
 				if pl.Type != "One" && k > 300 {
 					k = 64
 				}
